@@ -318,6 +318,17 @@ func Collect[T any](ctx context.Context, s Stream[T]) ([]T, error) {
 // all of them.
 func Last[T any](ctx context.Context, s Stream[T], n int) ([]T, error) {
 	defer s.Close()
+	if n <= 0 {
+		// Nothing to keep, but s is still consumed.
+		for {
+			_, err := s.Next(ctx)
+			if err == End {
+				return []T{}, nil
+			} else if err != nil {
+				return nil, err
+			}
+		}
+	}
 	buf := make([]T, n)
 	i := 0
 	for {
